@@ -185,7 +185,7 @@ def run_case(ctx: Any, env: base.Env, case: dict[str, Any], pending: list[Any]) 
         if cls != "ok":
             base.fail(ctx, case, f"C13:own-endpoint-refused:{pres['worker']}", f"a stream's own tokens at its own endpoint were refused: {cls} {T.error_message(resp)}")
     else:
-        ran = [h for h in hooks if h[0] in ("process", "on_cancel", "rehydrate", "bind_call_state")]
+        ran = [h for h in hooks if h[0] in ("process", "on_cancel", "rehydrate", "bind_call_state", "state_deserialize")]
         if resp.status_code != 400 or cls in ("ok", "in-band-error"):
             seen = [h for h in hooks if h[0] in ("process", "on_cancel")]
             base.fail(ctx, case, f"C13:cross-method-accepted:{'hit' if live_hit else 'miss'}:{pres.get('op')}",
@@ -194,8 +194,8 @@ def run_case(ctx: Any, env: base.Env, case: dict[str, Any], pending: list[Any]) 
         elif ran:
             base.fail(ctx, case, f"C13:foreign-state-processed:{ran[0][0]}",
                       f"rejected with 400 but {ran[:3]} ran on a state minted by {spec['method']!r}")
-        if cls == "decode_error":
-            ctx.tag("rejected-after-deserialisation-attempt")
+        if cls == "decode_error" and not ran:
+            ctx.tag("rejected-with-decode-error-message")
     if model_req is not None:
         pending.append((case, model_req, {
             "class": cls, "state": next((e[2] for e in log if e[0] == "state_bytes"), None),
